@@ -77,6 +77,9 @@ func cases(thorough bool, seed int64) []runSpec {
 		add(4, 1, -1, 1, 23*time.Second, false, 0)
 		add(7, 2, -1, 5, 23*time.Second, true, 0)
 		add(1, 0, -1, 1, 23*time.Second, false, 0)
+		add(4, 0, -1, 0, 23*time.Second, false, 0) // empty proposals only
+		add(5, 1, -1, 1, 23*time.Second, false, 0) // the pool runs dry after two blocks
+		out[len(out)-1].Spec.TxCount = 2
 		return out
 	}
 	for rep := 0; rep < 2; rep++ {
